@@ -1,4 +1,5 @@
 import H3.Drv.Util
+import H3.Drv.FaultOp
 import H3.Model.Control
 import H3.Model.FrameStream
 import H3.Spec.ControlRules
@@ -34,6 +35,8 @@ inductive Op where
   | gu (n : Nat)
   | gw (sid : Nat) (n : Nat)
   | api (cmd : String)
+  /-- `!<site>[<target>]:<err>`: a transport fault is armed (here: on the endpoint's grease stream) -/
+  | fault (f : FaultOp.Fault)
   | bad
 deriving Repr
 
@@ -70,6 +73,7 @@ def parseOp (task : String) (s : String) : Op :=
     | 'x' :: r => two r .stop
     | 'g' :: 'u' :: r => (natOf r).elim .bad .gu
     | 'g' :: 'w' :: r => two r .gw
+    | '!' :: r => (FaultOp.parse (String.ofList r)).elim .bad .fault
     | _ => .bad
   | _ => .bad
 
@@ -247,6 +251,13 @@ structure Sys where
   closed : List Nat := []
   unsupported : Bool := false
   panic : Bool := false
+  /-- faults armed on the grease stream's calls: `poll_open_send` (4th stream), `send_data`,
+      `poll_ready`, `poll_finish`; labels of those that fired, in order -/
+  gfOpen : Option FaultOp.Fault := none
+  gfSend : Option FaultOp.Fault := none
+  gfReady : Option FaultOp.Fault := none
+  gfFinish : Option FaultOp.Fault := none
+  gFired : List FaultOp.Fault := []
 deriving Repr
 
 def Sys.cfg (s : Sys) : Cfg := { role := if s.rc.server then .server else .client, wt := s.rc.wt }
@@ -323,19 +334,59 @@ def okAns (b : Bool) : GAns := if b then .ok else .pending
 def greaseScript (s : Sys) : List GAns × Bool :=
   let canOpen := match s.uc with | some 0 => false | _ => true
   let ready (granted : Option Nat) : GAns × Bool :=
+    -- SimQuic looks at an armed fault before STOP_SENDING, and at that before the credit
+    if s.gfReady.isSome then (.err, false) else
     if s.gStopped then (.err, false) else
     match granted with
     | none => (.ok, false)
     | some t => if t ≥ 23 then (.ok, false) else if t < 9 then (.pending, false) else (.pending, true)
-  let full : List GAns × Bool :=
+  let sendA : GAns := if s.gfSend.isSome then .err else .ok
+  -- `poll_finish`: an error, or (`P`) `Pending` once and then `Ok` (also within the same poll)
+  let finA : List GAns :=
+    match s.gfFinish with
+    | some f => if f.kind == .pend then [.pending, .ok] else [.err]
+    | none => [.ok]
+  let pre : List GAns × Bool :=
     match s.gs.step with
     | .notStarted =>
-      if canOpen then let (a, u) := ready s.rc.wc; ([.ok, .ok, a, .ok], u) else ([], false)
-    | .started => let (a, u) := ready s.gGranted; ([.ok, a, .ok], u)
-    | .dataPrepared => let (a, u) := ready s.gGranted; ([a, .ok], u)
-    | .dataSent => ([.ok], false)
-    | .finished => ([], false)
-  (full.1.takeWhile (· != .pending), full.2)
+      -- an armed fault answers before the stream credit is looked at
+      if s.gfOpen.isSome then ([.err, .pending], false)
+      else if canOpen then let (a, u) := ready s.rc.wc; ([.ok, sendA, a], u) else ([.pending], false)
+    | .started => let (a, u) := ready s.gGranted; ([sendA, a], u)
+    | .dataPrepared => let (a, u) := ready s.gGranted; ([a], u)
+    | .dataSent => ([], false)
+    | .finished => ([.pending], false)
+  let cut := pre.1.takeWhile (· != .pending)
+  (if cut.length == pre.1.length then cut ++ finA else cut, pre.2)
+
+/-- the fault that made the grease machine give up in this poll (it stops at the call that
+    answered the error: `send_grease_stream_flag = false`, the step stays) -/
+def greaseFired (s : Sys) (after : Grease) : Option FaultOp.Fault :=
+  if s.gs.flag && !after.flag then
+    match after.step with
+    | .notStarted => s.gfOpen
+    | .started => s.gfSend
+    | .dataPrepared => s.gfReady
+    | .dataSent => s.gfFinish
+    | .finished => none
+  else none
+
+def isPend (f : Option FaultOp.Fault) : Bool :=
+  match f with
+  | some x => x.kind == .pend
+  | none => false
+
+/-- is `f` a fault on one of the grease stream's calls?  `ou3` = the fourth stream the endpoint
+    opens (after control, encoder, decoder); `sd`/`pr`/`pf` on the grease stream's id. -/
+def armGrease (s : Sys) (gsid : Nat) (f : FaultOp.Fault) : Option Sys :=
+  if f.skip != 0 then none else
+  match f.site, f.target with
+  -- one fault per call site (a second one is not modelled)
+  | .ou, some 3 => if s.gfOpen.isNone then some { s with gfOpen := some f } else none
+  | .sd, some sid => if sid == gsid && s.gfSend.isNone then some { s with gfSend := some f } else none
+  | .pr, some sid => if sid == gsid && s.gfReady.isNone then some { s with gfReady := some f } else none
+  | .pf, some sid => if sid == gsid && s.gfFinish.isNone then some { s with gfFinish := some f } else none
+  | _, _ => none
 
 def setStops (streams : List UStream) (stops : List (Nat × Nat)) : List UStream :=
   streams.map fun u =>
@@ -382,12 +433,17 @@ def pollDriver (s : Sys) : Sys × Option String :=
   let uc := if opened then s.uc.map (· - 1) else s.uc
   let gGranted := if opened then s.rc.wc else s.gGranted
   let greaseUsed := s.gs.flag && (d.acts.length > 0 || d.gs.step != s.gs.step)
+  -- a `P` fault on `poll_finish` is used up when the grease machine, polled in this poll, got to that call
+  let pendFired := isPend s.gfFinish && s.gs.flag && d.acts.length > 0 &&
+    (d.gs.step == .dataSent || d.gs.step == .finished) && s.gs.step != .finished
   let closed := match d.res with
     | some e => if wasDead then s.closed else s.closed ++ [e]
     | none => s.closed
   let s1 : Sys := { s with conn := d.conn, gs := d.gs, streams := streams3, fs := fs1, uc := uc, gGranted := gGranted,
                            wtOrder := wtOrder, closed := closed, panic := s.panic || pnc,
-                           unsupported := s.unsupported || (gUnsup && greaseUsed) }
+                           unsupported := s.unsupported || (gUnsup && greaseUsed),
+                           gFired := s.gFired ++ (greaseFired s d.gs).toList ++ (if pendFired then s.gfFinish.toList else []),
+                           gfFinish := if pendFired then none else s.gfFinish }
   let res : Option String :=
     match d.res with
     | some e => some s!"err:{e}"
@@ -440,6 +496,12 @@ def applyOp (s : Sys) (t : Task) : Op → Sys × Task
       let b := s.build.grant s.rc.server sid n
       ({ s with build := b, unsupported := s.unsupported || b.unsupported }, t)
   | .api cmd => (s, { t with mailbox := t.mailbox ++ [cmd] })
+  | .fault f =>
+    -- engine `ctl`: stream errors on the grease stream only (connection errors are engine `flt`'s)
+    if f.kind.isConn then ({ s with unsupported := true }, t) else
+    match armGrease s (greaseSid s.rc.server) f with
+    | some s1 => (s1, t)
+    | none => ({ s with unsupported := true }, t)
   | .bad => ({ s with unsupported := true }, t)
 
 def runModel (s : Sys) (t : Task) : List Op → Sys × Task
@@ -622,6 +684,13 @@ def specApply (s : SpecSt) (t : Task) : Op → SpecSt × Task
   | .gu _ => (s, t)
   | .gw sid n => ({ s with build := s.build.grant s.rc.server sid n }, t)
   | .api cmd => (s, { t with mailbox := t.mailbox ++ [cmd] })
+  -- a stream error on the endpoint's own grease stream: the grease stream is optional padding
+  -- (RFC 9114 §6.2.3), what the peer's streams must lead to does not depend on it
+  | .fault f =>
+    if f.kind.isConn then ({ s with unknown := true }, t) else
+    match armGrease {rc := s.rc} (greaseSid s.rc.server) f with
+    | some _ => (s, t)
+    | none => ({ s with unknown := true }, t)
   | .bad => ({ s with unknown := true }, t)
 
 def runSpec : List (SpecSt × Task) → List Op → List (SpecSt × Task)
